@@ -400,7 +400,7 @@ func HarnessFault() {
 		rdump = zzDump(rtx)
 		readers = 1
 	}
-	{
+	if zz.Param("intermediate", 1) == 1 {
 		// a successful commit (after the reader began, if any): its freed pages stay pending for the
 		// reader, or become free pages the failing transaction will allocate from
 		err := db.Update(func(tx *Tx) error {
